@@ -72,6 +72,10 @@ pub struct ConfigParts {
     /// directory of the configuration file, or of the processed file when the
     /// configuration is given as an object)
     pub bundle_sources: bool,
+    /// luau mode only: aliases declared in the configuration (name with `@`, target relative
+    /// to the working directory; `{CFGREL}` is put in front). A `.luaurc` alias of the same
+    /// name wins over them.
+    pub bundle_luau_aliases: Vec<(String, String)>,
     pub apply_to_files: Vec<String>,
     pub skip_files: Vec<String>,
     /// Some(path relative to the configuration file): `convert_require` from path requires
@@ -116,6 +120,15 @@ impl ConfigParts {
         if let Some(mode) = &self.bundle {
             let mut bundle = if self.bundle_sources && mode == "path" {
                 "\"require_mode\":{\"name\":\"path\",\"sources\":{\"here\":\".\"}}".to_owned()
+            } else if !self.bundle_luau_aliases.is_empty() && mode == "luau" {
+                format!(
+                    "\"require_mode\":{{\"name\":\"luau\",\"aliases\":{{{}}}}}",
+                    self.bundle_luau_aliases
+                        .iter()
+                        .map(|(name, target)| format!("\"{}\":\"{{CFGREL}}{}\"", name, target))
+                        .collect::<Vec<_>>()
+                        .join(",")
+                )
             } else {
                 format!("\"require_mode\":\"{}\"", mode)
             };
@@ -177,6 +190,7 @@ pub fn gen_config_parts(rng: &mut Rng, bundle: Option<&str>) -> ConfigParts {
         bundle: bundle.map(str::to_owned),
         bundle_excludes: Vec::new(),
         bundle_sources: false,
+        bundle_luau_aliases: Vec::new(),
         apply_to_files: Vec::new(),
         skip_files: Vec::new(),
         convert_sourcemap: None,
@@ -395,6 +409,9 @@ pub struct Project {
     pub convert: bool,
     /// set once the invocation (where the configuration lives) is known
     pub source_base: SourceBase,
+    /// luau mode: the root `.luaurc` defines no alias at first; the alias the root files
+    /// use comes from the configuration (name with `@`, target)
+    pub config_alias: Option<(String, String)>,
 }
 
 /// `require("here/...")` for the file `to`, `here` being the directory `base`.
@@ -479,6 +496,9 @@ pub struct ProjectKnobs {
     pub allow_outside: bool,
     /// files that require through a `sources` entry of the path require mode
     pub allow_source_alias: bool,
+    /// luau mode: the root `.luaurc` may start without aliases, the configuration
+    /// declaring the alias instead
+    pub allow_late_luaurc: bool,
 }
 
 pub fn gen_project(rng: &mut Rng, knobs: &ProjectKnobs) -> Project {
@@ -605,6 +625,7 @@ pub fn gen_project(rng: &mut Rng, knobs: &ProjectKnobs) -> Project {
         }
     }
     let mut aliases: Vec<AliasDef> = Vec::new();
+    let mut config_alias: Option<(String, String)> = None;
     if bundle.is_some() && !input_is_file && rng.chance(1, 3) {
         // two .luaurc files defining the same alias differently: which one governs a
         // file decides what `@lib/...` means there
@@ -621,10 +642,18 @@ pub fn gen_project(rng: &mut Rng, knobs: &ProjectKnobs) -> Project {
             name: "lib".to_owned(),
             target: nested_target.clone(),
         });
-        other.push(FsEntry {
-            path: join(&input_dir, ".luaurc"),
-            body: Body::Text("{ \"aliases\": { \"lib\": \"./sub\" } }\n".to_owned()),
-        });
+        if luau && knobs.allow_late_luaurc && rng.chance(1, 2) {
+            config_alias = Some(("@lib".to_owned(), root_target.clone()));
+            other.push(FsEntry {
+                path: join(&input_dir, ".luaurc"),
+                body: Body::Text("{ \"languageMode\": \"strict\" }\n".to_owned()),
+            });
+        } else {
+            other.push(FsEntry {
+                path: join(&input_dir, ".luaurc"),
+                body: Body::Text("{ \"aliases\": { \"lib\": \"./sub\" } }\n".to_owned()),
+            });
+        }
         other.push(FsEntry {
             path: join(&nested_dir, ".luaurc"),
             body: Body::Text("{ \"aliases\": { \"lib\": \"../dots.v1.2\" } }\n".to_owned()),
@@ -779,6 +808,7 @@ pub fn gen_project(rng: &mut Rng, knobs: &ProjectKnobs) -> Project {
         aliases,
         convert,
         source_base: SourceBase::Dir(String::new()),
+        config_alias,
     }
 }
 
@@ -905,7 +935,7 @@ pub fn gen_invocation(
     let climb = allow_climb && backend == Backend::SimFs;
     let cwd_name = crate::simfs::SIM_CWD.rsplit('/').next().unwrap_or("");
     let mut extra: Vec<FsEntry> = Vec::new();
-    let config = match rng.below(if allow_object && !project.convert { 4 } else { 3 }) {
+    let config = match rng.below(if allow_object && !project.convert && project.config_alias.is_none() { 4 } else { 3 }) {
         0 => {
             let name = if rng.chance(1, 2) {
                 ".darklua.json"
